@@ -117,7 +117,34 @@ var optStrings = []string{
 
 var emptyOpt *opt
 
+// univNums: tag numbers that coincide with UNIVERSAL type numbers the decoder
+// switches on (INTEGER, OCTET STRING, the character string types, the time
+// types, SEQUENCE, SET). Used as IMPLICIT context/application/private tag
+// numbers on every field kind: a tag in another class is only a number and must
+// never be read as a universal type.
+var univNums = []int{2, 4, 12, 16, 17, 18, 19, 20, 22, 23, 24, 30}
+
+// univOpt: option string -> class (1 application, 2 context, 3 private) for the
+// options generated from univNums.
+var univOpt = map[string]int{}
+
 func initOpts() {
+	for _, n := range univNums {
+		ns := strconv.Itoa(n)
+		for _, o := range []struct {
+			s  string
+			cl int
+		}{{"tag:" + ns, 2}, {"optional,tag:" + ns, 2}, {"application,tag:" + ns, 1}, {"private,tag:" + ns, 3}} {
+			dup := false
+			for _, have := range optStrings {
+				dup = dup || have == o.s // e.g. "application,tag:2" is already a regular option
+			}
+			if !dup {
+				univOpt[o.s] = o.cl
+				optStrings = append(optStrings, o.s)
+			}
+		}
+	}
 	for _, s := range optStrings {
 		optCache[s] = parseOpt(s)
 	}
@@ -483,6 +510,9 @@ func classifyString(s string, o *opt) (bool, string) {
 	case 12:
 		return true, ""
 	}
+	// IMPLICIT tag, no string-type option: documented to decode as
+	// PrintableString, so every PrintableString value is inside the domain and
+	// must round-trip; only values that need another string type are exempt.
 	if o.implicit() && !x680Printable(s) {
 		// Unmarshal doc: "When decoding an ASN.1 value with an IMPLICIT tag
 		// into a string field, Unmarshal will default to a PrintableString,
